@@ -85,6 +85,7 @@ Definition x86_step (a : arch) (i : instr) (s : state) : option state :=
     | Some v => Some (set_reg s 0 d v)
     | None => None
     end
+  | (Mxchg, [OReg 0 _ d; OReg 0 _ r]) => Some (set_reg (set_reg s 0 d (st_reg s 0 r)) 0 r (st_reg s 0 d))
   | (Mand, [OReg 0 _ d; OImm v]) => Some (set_reg s 0 d (Z.land (st_reg s 0 d) v))
   | (Msub, [OReg 0 _ d; OImm v]) => Some (set_reg s 0 d (st_reg s 0 d - v))
   | (Madd, [OReg 0 _ d; OImm v]) => Some (set_reg s 0 d (st_reg s 0 d + v))
